@@ -9,10 +9,13 @@ import time
 
 VERIF = os.path.dirname(os.path.dirname(os.path.abspath(__file__)))
 REPO = os.environ.get("VERIF_REPO", "/repo")
-TARGET = os.path.join(VERIF, ".target")
-LOGS = os.path.join(VERIF, "logs")
-REPLAYS = os.path.join(VERIF, "replays")
-EVIDENCE = os.path.join(VERIF, "evidence")
+TARGET = os.environ.get("VERIF_TARGET", os.path.join(VERIF, ".target"))
+# VERIF_OUT redirects everything a run writes (used by seeded/run_matrix.py so that runs against
+# seeded changes never touch the evidence of the real tree)
+_OUT = os.environ.get("VERIF_OUT", VERIF)
+LOGS = os.path.join(_OUT, "logs")
+REPLAYS = os.path.join(_OUT, "replays")
+EVIDENCE = os.path.join(_OUT, "evidence")
 KNOWN = os.path.join(VERIF, "known_findings.txt")
 STABLE = "stable-x86_64-unknown-linux-gnu"
 NIGHTLY = "nightly-x86_64-unknown-linux-gnu"
